@@ -98,6 +98,8 @@ struct W {
     now: i64,
     sizes: HashMap<u32, usize>,
     v6: bool,
+    /// the ICMP socket is bound to UDP port 6000 (errors about datagrams sent from that port) instead of the echo identifier
+    icmp_udp: bool,
 }
 
 impl W {
@@ -131,7 +133,18 @@ impl W {
             L4::Icmp4 { ty, body, csum_ok, .. } | L4::Icmp6 { ty, body, csum_ok, .. } => {
                 // echo request from us / echo reply to us carrying the socket's identifier
                 let want = if from_me { if ip.ver == 4 { 8 } else { 128 } } else if ip.ver == 4 { 0 } else { 129 };
-                if *ty == want && body.len() >= 4 && u16::from_be_bytes([body[0], body[1]]) == IDENT {
+                let is_err = if ip.ver == 4 { *ty == 3 || *ty == 11 } else { *ty == 1 || *ty == 3 };
+                if self.icmp_udp && !from_me && is_err && body.len() > 4 {
+                    // an error message quoting a UDP datagram we sent from the port the ICMP socket is bound to
+                    if let Some(q) = parse_ip(&body[4..]) {
+                        if let L4::Udp { sport, payload, .. } = &q.l4 {
+                            let mine = if q.ver == 4 { q.src == MY_IP.to_vec() } else { q.src == a6(MY_IP).to_vec() };
+                            if *sport == 6000 && mine && q.wf {
+                                mark(v, 2, 4 + body.len(), payload, true, 0, 0, *csum_ok);
+                            }
+                        }
+                    }
+                } else if (from_me || !self.icmp_udp) && *ty == want && body.len() >= 4 && u16::from_be_bytes([body[0], body[1]]) == IDENT {
                     let seq = u16::from_be_bytes([body[2], body[3]]);
                     let pl = &body[4..];
                     let did_lo = if pl.len() >= 4 { u16::from_be_bytes([pl[2], pl[3]]) } else { seq };
@@ -355,6 +368,7 @@ pub fn random(args: &Args) {
         } else {
             iface.routes_mut().add_default_ipv4_route(Ipv4Address::new(10, 0, 0, 254)).unwrap();
         }
+        let icmp_udp = rng.chance(35);
         let mut sockets = SocketSet::new(vec![]);
         let mut socks = vec![];
         let mut scfg = vec![];
@@ -384,7 +398,11 @@ pub fn random(args: &Args) {
                     icmp::PacketBuffer::new(vec![icmp::PacketMetadata::EMPTY; rxm], vec![0u8; rxp]),
                     icmp::PacketBuffer::new(vec![icmp::PacketMetadata::EMPTY; txm], vec![0u8; txp]),
                 );
-                s.bind(icmp::Endpoint::Ident(IDENT)).unwrap();
+                if icmp_udp {
+                    s.bind(icmp::Endpoint::Udp(smoltcp::wire::IpListenEndpoint::from(6000u16))).unwrap();
+                } else {
+                    s.bind(icmp::Endpoint::Ident(IDENT)).unwrap();
+                }
                 sockets.add(s)
             } else {
                 sockets.add(raw::Socket::new(
@@ -410,7 +428,7 @@ pub fn random(args: &Args) {
             scfg.push(json!({"port": 6004, "rxm": rxm, "rxp": rxp, "txm": 1, "txp": 64}));
             socks.push(SockCfg { h, kind: 3, port: 6004, rxm, rxp, txm: 1, txp: 64 });
         }
-        let mut w = W { iface, dev, sockets, socks, now: 0, sizes: HashMap::new(), v6 };
+        let mut w = W { iface, dev, sockets, socks, now: 0, sizes: HashMap::new(), v6, icmp_udp };
         // behaviour of the virtual stations
         // (ordered map: iteration order feeds random picks, and runs must be reproducible from (seed, run))
         let mut arp_delay: std::collections::BTreeMap<u8, i64> = std::collections::BTreeMap::new(); // last octet -> delay in ms (-1: never answers)
@@ -442,7 +460,7 @@ pub fn random(args: &Args) {
             json!([{"p":[0,0,0,0],"plen":0,"gw":[10,0,0,254],"exp":-1}])
         };
         t.ev(json!({"ev":"reset","run":run,"world":"neigh","seed":seed0,"cfg":{"cache":cache,"v6":v6,"mtu":1500,"my_ip":[10,0,0,1],"p2p":if p2p { json!([P2P_ME, P2P_PEER]) } else { json!([]) },"my_mac":mac_s(&MY_MAC),"net":[10,0,0],"socks":scfg,
-            "routes":routes,"arp_delay":arp_delay.iter().map(|(k,v)| json!([k,v])).collect::<Vec<_>>()}}));
+            "icmp_udp":icmp_udp,"routes":routes,"arp_delay":arp_delay.iter().map(|(k,v)| json!([k,v])).collect::<Vec<_>>()}}));
         let mut pending: Vec<(i64, Vec<u8>)> = vec![]; // frames to deliver to the interface at a given time
         let mut next_did = 1u32;
         let total_dg = rng.range(3, 25) as u32;
@@ -565,6 +583,7 @@ pub fn random(args: &Args) {
                         let size = rng.range(4, 300) as usize;
                         let port = *rng.pick(&[6000u16, 6001, 6001, 6009, 6002, 6003, 6012, 6004]);
                         let port = if p2p && port == 6004 { 6003 } else { port };
+                        let port = if w.icmp_udp && port == 6002 { 6022 } else { port };
                         inbound_to(&mut w, v6, h, did, size, port, steps as u16, *rng.pick(&[0u8, 0, 0, 1, 2]))
                     }
                 };
@@ -578,7 +597,8 @@ pub fn random(args: &Args) {
                     let did = 200_000 + steps as u32 * 8 + b as u32;
                     let size = rng.range(4, (w.socks[k].rxp as u64 * 2 / 3).max(5)) as usize;
                     let dk = *rng.pick(&[0u8, 0, 0, 1, 2]);
-                    due.push(inbound_to(&mut w, v6, h, did, size, 6000 + k as u16, steps as u16, dk));
+                    let port = if w.icmp_udp && k == 2 { 6022 } else { 6000 + k as u16 };
+                    due.push(inbound_to(&mut w, v6, h, did, size, port, steps as u16, dk));
                 }
             }
             let budget = if rng.chance(25) { Some(rng.range(0, 2) as usize) } else { None };
@@ -663,6 +683,40 @@ fn inbound_to(w: &mut W, v6: bool, h: u8, did: u32, size: usize, port: u16, iden
             let l = m.len();
             (if v6 { 58 } else { 1 }, m, l)
         }
+        6022 => {
+            // an ICMP error quoting a UDP datagram of ours: from its destination (port unreachable), from the router about
+            // an off-link destination (time exceeded), or about a datagram from another source port (not for the socket)
+            let pl = size.max(4);
+            let (qdst, esrc, sport): ([u8; 4], [u8; 4], u16) = match did % 3 {
+                0 => (src, src, 6000),
+                1 => ([172, 16, 3, 9], GW, 6000),
+                _ => (src, src, 6001),
+            };
+            let quoted = if v6 {
+                ipv6_packet(a6(MY_IP), a6(qdst), 17, 63, &udp_datagram(sport, 9000, &dgram_payload(did, pl)), true)
+            } else {
+                ipv4_packet(MY_IP, qdst, 17, ident, 63, &udp_datagram(sport, 9000, &dgram_payload(did, pl)), true)
+            };
+            let (ty, code) = match (v6, did % 3 == 1) {
+                (false, false) => (3u8, 3u8),
+                (false, true) => (11, 0),
+                (true, false) => (1, 4),
+                (true, true) => (3, 0),
+            };
+            let mut m = vec![ty, code, 0, 0, 0, 0, 0, 0];
+            m.extend_from_slice(&quoted);
+            if !v6 {
+                let c = csum(&m);
+                m[2..4].copy_from_slice(&c.to_be_bytes());
+            }
+            let l = m.len();
+            w.sizes.insert(did, l);
+            return if v6 {
+                eth_frame(MY_MAC, mac_of(esrc), 0x86dd, &ipv6_packet(a6(esrc), a6(MY_IP), 58, 64, &m, true))
+            } else {
+                eth_frame(MY_MAC, mac_of(esrc), 0x0800, &ipv4_packet(esrc, MY_IP, 1, ident, 64, &m, true))
+            };
+        }
         6003 | 6004 => (RAW_PROTO, dgram_payload(did, size.max(4)), (if (port == 6004) != v6 { 40 } else { 20 }) + size.max(4)),
         _ => (17, udp_datagram(5000 + h as u16, port, &dgram_payload(did, size)), size),
     };
@@ -698,6 +752,9 @@ fn app_recv(w: &mut W, k: usize, cap: usize, peek: bool, v6: bool, t: &mut Trace
     };
     let now = w.now;
     let ident = |data: &[u8]| -> (i64, i64) {
+        // an ICMP error: the datagram id sits in the quoted UDP payload
+        let is_err = kind == 1 && !data.is_empty() && (if v6 { data[0] == 1 || data[0] == 3 } else { data[0] == 3 || data[0] == 11 });
+        let hdr = if is_err { 8 + (if v6 { 40 } else { 20 }) + 8 } else { hdr };
         // (datagram id, position of the first octet that differs from what the sender wrote)
         if data.len() < hdr + 4 {
             return (u32::MAX as i64, 0);
